@@ -34,6 +34,26 @@ def last_field(p):
     return names[-1] if names else None
 
 
+def _decides_debug_assert(fn, bi):
+    """is one arm of the switch at bi the failure of a `debug_assert!` (the test is the assertion's, not a latch)?"""
+    for x in fn.succ(bi):
+        cur = x
+        for _ in range(6):
+            tx = fn.blocks[cur]['term']
+            if tx['k'] == 'call' and (tx.get('callee') or '').startswith('core::panicking::') and \
+                    (tx['span'].get('expn') or '').startswith('debug_assert'):
+                return True
+            if tx['k'] in ('goto', 'drop') or (tx['k'] == 'call' and tx.get('ret') is not None and
+                                               (tx['span'].get('expn') or '').startswith('debug_assert')):
+                nxt = fn.succ(cur)
+                if len(nxt) != 1:
+                    break
+                cur = nxt[0]
+                continue
+            break
+    return False
+
+
 def latch_guards(fn):
     """[(kind, frozenset(edges), switch_blk)]"""
     out = []
@@ -44,6 +64,8 @@ def latch_guards(fn):
         src = switch_source(fn, bi)
         if src is None:
             continue
+        if _decides_debug_assert(fn, bi):
+            continue
         if src['kind'] == 'place' and last_field(src['place']) == 'dirty':
             owner = field_owner(fn, src['place'], 'dirty')
             if owner in LATCH_ADTS:
@@ -53,6 +75,26 @@ def latch_guards(fn):
             if ga and fn.ty(ga[0]).get('path') == STATUS_ADT:
                 # the arm on which the two status values differ
                 differ = zero_targets(t) if src['callee'].endswith('::eq') else nonzero_targets(t)
+                # (the comparison of a `debug_assert_eq!` is no latch: one of its arms is the assertion's own failure)
+                dbg = False
+                for x in fn.succ(bi):
+                    cur = x
+                    for _ in range(6):
+                        tx = fn.blocks[cur]['term']
+                        if tx['k'] == 'call' and (tx.get('callee') or '').startswith('core::panicking::') and \
+                                (tx['span'].get('expn') or '').startswith('debug_assert'):
+                            dbg = True
+                            break
+                        if tx['k'] in ('goto', ) or (tx['k'] == 'call' and tx.get('ret') is not None and
+                                                    (tx['span'].get('expn') or '').startswith('debug_assert')):
+                            nxt = fn.succ(cur)
+                            if len(nxt) != 1:
+                                break
+                            cur = nxt[0]
+                            continue
+                        break
+                if dbg:
+                    continue
                 out.append(('status', frozenset((bi, x) for x in differ), bi))
     return out
 
